@@ -5,6 +5,7 @@ import (
 	"os"
 	"path/filepath"
 	"strings"
+	"znverif/hlib"
 
 	zerr "github.com/DemoHn/Zn/pkg/error"
 	"github.com/DemoHn/Zn/pkg/exec"
@@ -57,7 +58,14 @@ func decodeResult(rs []rune, err error) map[string]interface{} {
 	return map[string]interface{}{"ok": true, "runes": cps}
 }
 
-func init() {
+var commands = map[string]hlib.Handler{}
+
+func main() {
+	register()
+	hlib.Main(commands)
+}
+
+func register() {
 	// {"mode":"file","reads":[["hex",eof],...]} | {"mode":"bytes","hex":...} | {"mode":"realfile","hex":...}
 	// | {"mode":"exec","hex":...}  (LoadFile + Execute on a temp file)
 	commands["decode"] = func(in map[string]interface{}) map[string]interface{} {
@@ -66,19 +74,19 @@ func init() {
 			sr := &scriptReader{}
 			for _, rd := range in["reads"].([]interface{}) {
 				pr := rd.([]interface{})
-				sr.chunks = append(sr.chunks, unhex(pr[0].(string)))
+				sr.chunks = append(sr.chunks, hlib.Unhex(pr[0].(string)))
 				sr.eofs = append(sr.eofs, pr[1].(bool))
 			}
 			fs := zio.VerifNewFileStream(sr)
 			return decodeResult(fs.ReadAll())
 		case "bytes":
-			bs := zio.NewByteStream(unhex(in["hex"].(string)))
+			bs := zio.NewByteStream(hlib.Unhex(in["hex"].(string)))
 			return decodeResult(bs.ReadAll())
 		case "realfile":
 			dir, _ := os.MkdirTemp("", "znh")
 			defer os.RemoveAll(dir)
 			p := filepath.Join(dir, "a.zn")
-			os.WriteFile(p, unhex(in["hex"].(string)), 0644)
+			os.WriteFile(p, hlib.Unhex(in["hex"].(string)), 0644)
 			fs, err := zio.NewFileStream(p)
 			if err != nil {
 				return map[string]interface{}{"ok": false, "open": true}
@@ -88,20 +96,20 @@ func init() {
 			dir, _ := os.MkdirTemp("", "znh")
 			defer os.RemoveAll(dir)
 			p := filepath.Join(dir, "a.zn")
-			os.WriteFile(p, unhex(in["hex"].(string)), 0644)
+			os.WriteFile(p, hlib.Unhex(in["hex"].(string)), 0644)
 			var elem r.Element
 			var err error
-			disp := captureStdout(func() {
+			disp := hlib.CaptureStdout(func() {
 				z := exec.NewInterpreter("verif").SetExternalLibs([]*r.Library{libJson.Export(), libFile.Export()})
 				elem, err = z.LoadFile(p).Execute(r.ElementMap{})
 			})
 			out := map[string]interface{}{"display": strings.Split(disp, "\n")}
 			if err != nil {
 				out["kind"] = "error"
-				out["err"] = dumpError(err)
+				out["err"] = hlib.DumpError(err)
 			} else {
 				out["kind"] = "value"
-				out["value"] = dumpValue(elem, 0)
+				out["value"] = hlib.DumpValue(elem, 0)
 			}
 			return out
 		}
